@@ -419,7 +419,7 @@ func init() {
 		Prop:  "C01",
 		Level: "exploration",
 		Rule: "scripts = sequences of inbound messages (single or batch) over member kinds {gated call, instant call, erroring call, gated notification, instant notification, unknown-method call, " +
-			"unknown-method notification, invalid member with id, invalid member without id} with unique ids/tags, all sent before any gate opens, x every release order of the gates (<=4; seeded beyond) " +
+			"unknown-method notification, invalid member with id, invalid member without id} with unique ids/tags, all sent before any gate opens (one message: every shape with batches up to 3 members; two messages: every ordered pair of shapes with batches up to 2 members — a seeded 40% of the pairs in the quick tier; three messages: seeded), x every release order of the gates (<=4; seeded beyond) " +
 			"x Concurrency in {1,2,16}; reference response calculator compared at every quiescent point; plus delay-bounded schedules and seeded perturbation. " +
 			"distinct_nontrivial = distinct (script, concurrency, release order, delay set) with at least one call and at least two members",
 		Assumptions: []string{
@@ -489,6 +489,9 @@ func c01cases(e vt.Env, yield func(vt.Case) bool) {
 			if !yield(vt.Case{ID: id, Run: func(c *vt.Ctx) {
 				for _, b := range shapes2 {
 					shapes := []c01shape{a, b}
+					if !e.Thorough() && vt.Hash64(fmt.Sprint(e.Seed, c01sig(shapes)))%5 >= 2 {
+						continue // quick: a seeded 40% of the ordered pairs of shapes
+					}
 					runOrders(c, fmt.Sprintf("E1/%s/c%d", c01sig(shapes), conc), shapes, conc)
 					if c.Failed() {
 						return
